@@ -16,6 +16,8 @@ CLAIMED = {
          "static analysis: CFG reachability under guard-edge removal, provenance of buffer arguments"),
  'C18': ("decides over the whole i64/u64/f64 value space by interval arithmetic on CFG paths: exact, lossless, shortest width partition of the encoder, inverse decoder table with Err defaults, decoder panic-freedom, no lossy int->float conversion and only range-guarded float->int casts in the ordering cone, OrderedFloat for float/float, exact-or-absent integer views. OrderedFloat's conventions are trusted; total-order laws as such are NOT decided",
          "static analysis: interval arithmetic over type ranges on MIR paths, float-constant guard decoding, comparator whitelist"),
+ 'C05': ("decides for every valid document, on all CFG paths of every entry-reading loop and iterator body: cursor initial forms match the layout (4n / 8n after the entry words, kind from the dominating header tag), entry and payload cursors advance in step with the entries actually read from the buffer they index, sub-values are re-wrapped exactly, negative key-path indices use len+idx only when provably negative, the name lookup exits early only on an exact match and latches the first case-insensitive match, type names follow the tag tables, headers are read at stepped offsets only for container entries. Equality with the tree answer for every accessor/argument is NOT decided",
+         "static analysis: path-sensitive dataflow over loop bodies (affine cursor deltas), interval facts, table extraction"),
 }
 NOT_APPLICABLE = {
 }
